@@ -6,6 +6,7 @@ formulas that are graph based.
 
 import os
 import io
+import contextlib
 import random
 from io import StringIO
 import copy
@@ -976,7 +977,10 @@ def readGraph(input_file,
             # the first graph of the file and, inside it, silently
             # drops whatever is written inside a subgraph.
             import pydot
-            dots = pydot.graph_from_dot_data(input_file.read())
+            # (pydot prints its own parse diagnostics on standard
+            # output, where our caller may be writing a formula)
+            with contextlib.redirect_stdout(io.StringIO()):
+                dots = pydot.graph_from_dot_data(input_file.read())
             if len(dots) != 1 or dots[0].get_subgraph_list():
                 raise ValueError('Dot file must contain one graph, '
                                  'without subgraphs')
